@@ -72,6 +72,7 @@ type Event struct {
 	Kind string
 	ID   int // message id (>0 user message, <0 internal marker), 0 = none
 	A, B int
+	P    int // partition of the message (-1 if none)
 }
 
 type Result struct {
@@ -351,7 +352,9 @@ func Run(sc *Scenario) *Result {
 		evMu.Lock()
 		defer evMu.Unlock()
 		id := 0
+		part := -1
 		if m != nil {
+			part = int(m.Partition)
 			if v, ok := m.Metadata.(int); ok {
 				id = v
 			} else {
@@ -364,7 +367,7 @@ func Run(sc *Scenario) *Result {
 				}
 			}
 		}
-		res.Events = append(res.Events, Event{kind, id, a, b})
+		res.Events = append(res.Events, Event{kind, id, a, b, part})
 	}
 	defer func() { sarama.VerifSink = nil }()
 
@@ -780,6 +783,11 @@ func Check(res *Result) []Fail {
 					if sc.RetryMax == 0 {
 						sig = "C02:success-offset-order-retrymax0"
 					}
+					if dedupByError[l[i].id] || dedupByError[l[i-1].id] {
+						sig = "C02:success-offset-order:dedup-by-error-without-offset"
+					} else if sc.Idempotent {
+						sig += "-idempotent"
+					}
 					add(sig, "partition %d: message %d (earlier) offset %d, message %d (later) offset %d", p, l[i-1].id, l[i-1].off, l[i].id, l[i].off)
 					break
 				}
@@ -1020,7 +1028,7 @@ func TraceLines(res *Result) []string {
 	}
 	lines := []string{fmt.Sprintf("reset %d %d %d", sc.RetryMax, sc.Icepts, idem)}
 	for _, e := range res.Events {
-		lines = append(lines, fmt.Sprintf("ev %s %d %d %d", e.Kind, e.ID, e.A, e.B))
+		lines = append(lines, fmt.Sprintf("ev %s %d %d %d %d", e.Kind, e.ID, e.A, e.B, e.P))
 	}
 	closed := 0
 	if res.ClosedOK {
